@@ -232,8 +232,14 @@ func c08Payload(class string, endpoint string, old map[string]string) (body []by
 	valid = true
 	complete := endpoint == "/apply_flows" // apply_flows replaces everything: send the complete set
 	if complete && len(old) > 0 {
-		flows["f1.yaml"], flows["f2.yaml"] = old["flows/f1.yaml"], old["flows/f2.yaml"]
-		quotas["q.yaml"] = old["quotas/q.yaml"]
+		for _, f := range []string{"f1.yaml", "f2.yaml"} {
+			if v, ok := old["flows/"+f]; ok {
+				flows[f] = v
+			}
+		}
+		if v, ok := old["quotas/q.yaml"]; ok {
+			quotas["q.yaml"] = v
+		}
 	}
 	raw := map[string]string{} // entries put into the JSON verbatim (not base64 of content)
 	switch class {
@@ -364,6 +370,32 @@ func runC08(s *kernel.Sim, enumerate bool) {
 		class = strings.TrimPrefix(class, "fresh+")
 		s.Knobs["fresh_gateway"] = true
 	}
+	// history: in a quarter of the sampled runs an accepted /apply_flows that removed
+	// a flow file precedes the judged update on the same gateway; "before" is then
+	// the configuration that update left
+	old0 := old
+	var prelude []byte
+	if !enumerate && len(old) > 0 && tp.Chance(1, 4) {
+		if pb, pExpect, pValid := c08Payload("remove-flow", "/apply_flows", old); pValid {
+			prelude, old = pb, pExpect
+		}
+	}
+	s.Knobs["preceded_by_accepted_removal"] = prelude != nil
+	mkEnv := func() (*c08env, error) {
+		e, err := newC08Env(s, old0, hp)
+		if err != nil || prelude == nil {
+			return e, err
+		}
+		r := httptest.NewRecorder()
+		e.mux.ServeHTTP(r, httptest.NewRequest(http.MethodPut, "/apply_flows", bytes.NewReader(prelude)))
+		if r.Code != 200 {
+			return nil, fmt.Errorf("the preceding fault-free /apply_flows answered %d: %s", r.Code, strings.TrimSpace(r.Body.String()))
+		}
+		if d := diffDigest(digestOf(old), dirDigest(e.dir)); d != "" {
+			return nil, fmt.Errorf("the preceding fault-free /apply_flows left %s", d)
+		}
+		return e, nil
+	}
 	body, expectFiles, valid := c08Payload(class, endpoint, old)
 
 	// ---- phase 1: fault-free recording run lists the fault points of this update ----
@@ -411,7 +443,7 @@ func runC08(s *kernel.Sim, enumerate bool) {
 		}
 		return ""
 	}
-	env1, err := newC08Env(s, old, hp)
+	env1, err := mkEnv()
 	if err != nil {
 		s.HarnessErr = "cannot build C08 environment: " + err.Error()
 		return
@@ -513,7 +545,7 @@ func runC08(s *kernel.Sim, enumerate bool) {
 		}
 		return ""
 	}
-	env, err := newC08Env(s, old, hp)
+	env, err := mkEnv()
 	if err != nil {
 		s.HarnessErr = "cannot build C08 environment (phase 2): " + err.Error()
 		return
